@@ -53,7 +53,7 @@ def depth_rule(c, model, rule, fold_rule=None):
         c.inconclusive(rule, '-', 'fold step of embed() not found', key='_signatures:embed|depth')
         return
     bound = _bind(model.fi, call.args, call.kws)
-    dname = model.params[4]
+    dname = model.depth_name
     st = '%s %s' % (f.fi.loc(call.node), f.fi.key)
     key = '_signatures:embed|depth'
     d = bound.get(dname) if bound else None
